@@ -338,10 +338,32 @@ RESTART:
 		if !value.IsValid() {
 			left.errorf("identifier %q is not available in the current scope", fields[lef])
 		}
-		value.Set(right)
+		if !value.CanSet() {
+			// (reflect would panic with a string, which Execute does not turn into an error)
+			left.errorf("field %q can't be assigned to: it is not exported, or the struct it belongs to was not reached through a pointer", fields[lef])
+		}
+		value.Set(st.assignable(left, right, value.Type()))
 	case reflect.Map:
+		if right.IsValid() {
+			right = st.assignable(left, right, value.Type().Elem())
+		}
 		value.SetMapIndex(reflect.ValueOf(&fields[lef]).Elem(), right)
 	}
+}
+
+// assignable returns right as a value that can be stored in a field or map element of type typ.
+func (st *Runtime) assignable(left Expression, right reflect.Value, typ reflect.Type) reflect.Value {
+	if !right.IsValid() {
+		return reflect.Zero(typ)
+	}
+	if right.Type().AssignableTo(typ) {
+		return right
+	}
+	converted, ok := convertTo(right, typ)
+	if !ok {
+		left.errorf("a value of type %s can't be assigned to %s, which is of type %s", right.Type(), left, typ)
+	}
+	return converted
 }
 
 func (st *Runtime) executeSetList(set *SetNode) {
